@@ -279,6 +279,14 @@ int tokens_get(AsmContext *asm_context, char *token, int len)
 
   while (true)
   {
+    if (ptr >= len - 1)
+    {
+      print_error(asm_context, "Token too long");
+      asm_context->error_count++;
+      token[0] = 0;
+      return TOKEN_EOF;
+    }
+
 #ifdef DEBUG
 //printf("debug> tokens_get, grabbing next char ptr=%d\n", ptr);
 #endif
